@@ -102,8 +102,11 @@ SAct(R) ==
        /\ (act'.k = "adjust" =>
              /\ R.acts[1].d_whole /\ R.acts[1].d = act'.d
              /\ (R.acts[1].p_small => (R.acts[1].p = act'.p /\ (R.acts[1].p = 0 \/ Sgn(R.acts[1].p) = Sgn(R.off)))))
+\* gain branch taken in tracking mode, read off the logged gain a
+SGain(R) == R.gc = hist'[Len(hist')].gc
 SFailing(R) ==
   (IF SMode(R) THEN << >> ELSE <<"Mode">>) \o
+  (IF SGain(R) THEN << >> ELSE <<"Gain">>) \o
   (IF SReading(R) THEN << >> ELSE <<"Reading">>) \o
   (IF SEpoch(R) THEN << >> ELSE <<"Epoch">>) \o
   (IF SLogged(R) THEN << >> ELSE <<"Logged">>) \o
